@@ -47,6 +47,21 @@ def validate(rd, trace, invariants, maxexh=6, timeout=1500):
                      depth_first=True, coverage=False, xmx="6g")
 
 
+def concat(rd, traces, name):
+    """Concatenate traces (each starts with its own init event) into one file for one TLC run."""
+    cat = os.path.join(rd, name + ".ndjson")
+    index = []
+    n = 0
+    with open(cat, "w") as out:
+        for t in traces:
+            index.append((n + 1, t))
+            for line in open(t):
+                if line.strip():
+                    out.write(line if line.endswith("\n") else line + "\n")
+                    n += 1
+    return cat, index
+
+
 def locate(r, trace):
     """Event index (1-based line of the trace) whose application produced the offending state."""
     m = None
